@@ -247,9 +247,9 @@ def sendFinished (s : State) (now : Nat) : State :=
   | some (f, true) => setFinishedFlag (sendPayload s (.finished f)) false
   | _ => s
 
-/-- `NegativeAcknowledgmentPDU::max_nak_num` (u32 arithmetic; the subtraction panics below 2·FSS) -/
+/-- `NegativeAcknowledgmentPDU::max_nak_num` (u32 arithmetic, saturating at zero) -/
 def maxNakNum (fss : FileSizeFlag) (payloadLen : Nat) : Option Nat :=
-  if payloadLen < 2 * fssLen fss then none else some ((payloadLen - 2 * fssLen fss) / (2 * fssLen fss))
+  some ((payloadLen - 2 * fssLen fss) / (2 * fssLen fss))   -- saturating subtraction
 
 def listMin (l : List Nat) (d : Nat) : Nat := match l with | [] => d | x :: xs => xs.foldl min x
 def listMax (l : List Nat) (d : Nat) : Nat := match l with | [] => d | x :: xs => xs.foldl max x
@@ -275,7 +275,7 @@ def sendNaks (s : State) (now : Nat) : State :=
   match maxNakNum s.cfg.fss s.cfg.seg with
   | none => { s with panicked := true }
   | some m =>
-    let n := min s.naks.length m
+    let n := min s.naks.length (max 1 m)   -- at least one request per PDU
     let reqs := s.naks.take n
     let s := { s with naks := s.naks.drop n }
     let scopeStart := listMin (reqs.map (·.1)) 0
@@ -563,9 +563,14 @@ def handleTimeout (s : State) (now : Nat) : State :=
   | .ReceiveData =>
     let o := s.timer.nak.timeoutOccurred now
     let s := { s with timer := { s.timer with nak := o.1 } }
-    if o.2 then { s with naks := getAllNaks s } else s
-  | .Finished => handleAckTimer s now false
-  | .Cancelled => handleAckTimer s now true
+    if o.2 then
+      let s := { s with naks := getAllNaks s }
+      -- nothing to ask for: no NAK will re-arm the timer, so stop it
+      if s.naks.isEmpty then { s with timer := { s.timer with nak := s.timer.nak.pause now } } else s
+    else s
+  -- the NAK timer is only serviced while receiving
+  | .Finished => handleAckTimer { s with timer := { s.timer with nak := s.timer.nak.pause now } } now false
+  | .Cancelled => handleAckTimer { s with timer := { s.timer with nak := s.timer.nak.pause now } } now true
 
 /-- `send_report` -/
 def sendReport (s : State) : State := emit s (generateReport s)
